@@ -16,15 +16,18 @@
 (*   Alias       the worker enqueues its encode buffer itself, not a copy     *)
 (*   CloseWaits  FALSE: as built, shutdown closes udpCh after a 1 s sleep     *)
 (*               while the receive loop may still be blocked sending          *)
+(*   RetireDrops a retiring worker (dynamic workers) takes a datagram with it *)
 EXTENDS Integers, Sequences, FiniteSets, TLC
 
-CONSTANTS Workers, Dgrams, Bufs, UdpCap, MqCap, EarlyPut, Alias, CloseWaits
+CONSTANTS Workers, Dgrams, Bufs, UdpCap, MqCap, EarlyPut, Alias, CloseWaits,
+          MaxRetire,     \* dynamic workers: how many workers may be told to quit (dynWorkers closes wQuit)
+          RetireDrops    \* deviation: a worker that sees its quit signal after taking a datagram leaves with it
 
 Kind(d) == d[1]          \* datagrams are <<kind, n>>, kind \in {"data","tpl","bad"}
 
 VARIABLES pool, content, arriving, recv, udpCh, w, mqCh, udpCount, decCount,
-          stop, closed, sd, published, panicked
-vars == <<pool, content, arriving, recv, udpCh, w, mqCh, udpCount, decCount, stop, closed, sd, published, panicked>>
+          stop, closed, sd, published, panicked, quit
+vars == <<pool, content, arriving, recv, udpCh, w, mqCh, udpCount, decCount, stop, closed, sd, published, panicked, quit>>
 
 NoBuf == "nobuf"
 NoD == <<"none", 0>>
@@ -43,92 +46,104 @@ Init ==
   /\ stop = FALSE /\ closed = FALSE /\ sd = "idle"
   /\ published = [d \in Dgrams |-> <<>>]
   /\ panicked = FALSE
+  /\ quit = {}
 
 \* ---------------- receive loop
 RecvCheck == /\ recv.pc = "check"
              /\ recv' = [recv EXCEPT !.pc = IF stop THEN "exit" ELSE "get"]
-             /\ UNCHANGED <<pool, content, arriving, udpCh, w, mqCh, udpCount, decCount, stop, closed, sd, published, panicked>>
+             /\ UNCHANGED <<pool, content, arriving, udpCh, w, mqCh, udpCount, decCount, stop, closed, sd, published, panicked, quit>>
 RecvGet == /\ recv.pc = "get" /\ pool # {}
            /\ \E b \in pool : /\ pool' = pool \ {b}
                               /\ recv' = [recv EXCEPT !.pc = "read", !.buf = b]
-           /\ UNCHANGED <<content, arriving, udpCh, w, mqCh, udpCount, decCount, stop, closed, sd, published, panicked>>
+           /\ UNCHANGED <<content, arriving, udpCh, w, mqCh, udpCount, decCount, stop, closed, sd, published, panicked, quit>>
 RecvRead == /\ recv.pc = "read"
             /\ \E d \in arriving :
                  /\ arriving' = arriving \ {d}
                  /\ content' = [content EXCEPT ![recv.buf] = d]
                  /\ recv' = [recv EXCEPT !.pc = "count", !.d = d]
-            /\ UNCHANGED <<pool, udpCh, w, mqCh, udpCount, decCount, stop, closed, sd, published, panicked>>
+            /\ UNCHANGED <<pool, udpCh, w, mqCh, udpCount, decCount, stop, closed, sd, published, panicked, quit>>
 RecvTimeout == /\ recv.pc = "read"
                /\ recv' = [recv EXCEPT !.pc = "check", !.buf = NoBuf]   \* buffer is simply dropped (GC)
-               /\ UNCHANGED <<pool, content, arriving, udpCh, w, mqCh, udpCount, decCount, stop, closed, sd, published, panicked>>
+               /\ UNCHANGED <<pool, content, arriving, udpCh, w, mqCh, udpCount, decCount, stop, closed, sd, published, panicked, quit>>
 RecvCount == /\ recv.pc = "count"
              /\ udpCount' = udpCount + 1
              /\ recv' = [recv EXCEPT !.pc = "send"]
-             /\ UNCHANGED <<pool, content, arriving, udpCh, w, mqCh, decCount, stop, closed, sd, published, panicked>>
+             /\ UNCHANGED <<pool, content, arriving, udpCh, w, mqCh, decCount, stop, closed, sd, published, panicked, quit>>
 RecvSend == /\ recv.pc = "send"
             /\ IF closed THEN /\ panicked' = TRUE /\ UNCHANGED <<udpCh, recv>>
                ELSE /\ Len(udpCh) < UdpCap
                     /\ udpCh' = Append(udpCh, [d |-> recv.d, buf |-> recv.buf])
                     /\ recv' = [pc |-> "check", buf |-> NoBuf, d |-> NoD]
                     /\ UNCHANGED panicked
-            /\ UNCHANGED <<pool, content, arriving, w, mqCh, udpCount, decCount, stop, closed, sd, published>>
+            /\ UNCHANGED <<pool, content, arriving, w, mqCh, udpCount, decCount, stop, closed, sd, published, quit>>
 
 \* ---------------- workers
 WTop(x) == /\ w[x].pc = "top"
            /\ pool' = IF w[x].buf = NoBuf THEN pool ELSE pool \cup {w[x].buf}
            /\ w' = [w EXCEPT ![x].pc = "wait"]
-           /\ UNCHANGED <<content, arriving, recv, udpCh, mqCh, udpCount, decCount, stop, closed, sd, published, panicked>>
+           /\ UNCHANGED <<content, arriving, recv, udpCh, mqCh, udpCount, decCount, stop, closed, sd, published, panicked, quit>>
 WDequeue(x) == /\ w[x].pc = "wait" /\ udpCh # <<>>
                /\ LET m == Head(udpCh) IN
                     /\ udpCh' = Tail(udpCh)
                     /\ w' = [w EXCEPT ![x] = [pc |-> "got", d |-> m.d, buf |-> m.buf, dec |-> NoD, enc |-> w[x].enc]]
                     /\ pool' = IF EarlyPut THEN pool \cup {m.buf} ELSE pool
-               /\ UNCHANGED <<content, arriving, recv, mqCh, udpCount, decCount, stop, closed, sd, published, panicked>>
+               /\ UNCHANGED <<content, arriving, recv, mqCh, udpCount, decCount, stop, closed, sd, published, panicked, quit>>
+(* dynamic workers (dynWorkers): a worker is told to quit; it leaves at its select - never with a datagram in hand *)
+Retire(x) == /\ x \notin quit /\ Cardinality(quit) < MaxRetire /\ Cardinality(Workers \ quit) > 1
+             /\ quit' = quit \cup {x}
+             /\ UNCHANGED <<pool, content, arriving, recv, udpCh, w, mqCh, udpCount, decCount, stop, closed, sd, published, panicked>>
+WQuit(x) == /\ w[x].pc = "wait" /\ x \in quit
+            /\ w' = [w EXCEPT ![x].pc = "exit"]
+            /\ UNCHANGED <<pool, content, arriving, recv, udpCh, mqCh, udpCount, decCount, stop, closed, sd, published, panicked, quit>>
+(* the deviation: the datagram is taken from the queue and the worker leaves *)
+WQuitDrop(x) == /\ RetireDrops /\ w[x].pc = "wait" /\ x \in quit /\ udpCh # <<>>
+                /\ udpCh' = Tail(udpCh) /\ w' = [w EXCEPT ![x].pc = "exit"]
+                /\ UNCHANGED <<pool, content, arriving, recv, mqCh, udpCount, decCount, stop, closed, sd, published, panicked, quit>>
 WExit(x) == /\ w[x].pc = "wait" /\ udpCh = <<>> /\ closed
             /\ w' = [w EXCEPT ![x].pc = "exit"]
-            /\ UNCHANGED <<pool, content, arriving, recv, udpCh, mqCh, udpCount, decCount, stop, closed, sd, published, panicked>>
+            /\ UNCHANGED <<pool, content, arriving, recv, udpCh, mqCh, udpCount, decCount, stop, closed, sd, published, panicked, quit>>
 WDecode(x) == /\ w[x].pc = "got"
               /\ LET seen == content[w[x].buf] IN
                    IF Kind(seen) = "bad"
                    THEN /\ w' = [w EXCEPT ![x].pc = "top"] /\ UNCHANGED decCount
                    ELSE /\ w' = [w EXCEPT ![x].pc = "decoded", ![x].dec = seen]
                         /\ decCount' = decCount + 1
-              /\ UNCHANGED <<pool, content, arriving, recv, udpCh, mqCh, udpCount, stop, closed, sd, published, panicked>>
+              /\ UNCHANGED <<pool, content, arriving, recv, udpCh, mqCh, udpCount, stop, closed, sd, published, panicked, quit>>
 (* JSONMarshal into the worker's own, reused encode buffer *)
 WMarshal(x) == /\ w[x].pc = "decoded"
                /\ IF Kind(w[x].dec) = "data"
                   THEN w' = [w EXCEPT ![x].pc = "marshalled", ![x].enc = w[x].dec]
                   ELSE w' = [w EXCEPT ![x].pc = "top"]                 \* nothing to publish (template only)
-               /\ UNCHANGED <<pool, content, arriving, recv, udpCh, mqCh, udpCount, decCount, stop, closed, sd, published, panicked>>
+               /\ UNCHANGED <<pool, content, arriving, recv, udpCh, mqCh, udpCount, decCount, stop, closed, sd, published, panicked, quit>>
 (* non-blocking send: a copy of the encoded message, or (Alias) the encode buffer itself *)
 WPublish(x) == /\ w[x].pc = "marshalled"
                /\ IF Len(mqCh) < MqCap
                   THEN mqCh' = Append(mqCh, [d |-> w[x].d, ref |-> IF Alias THEN x ELSE NoRef, val |-> w[x].enc])
                   ELSE UNCHANGED mqCh                                   \* queue full: dropped
                /\ w' = [w EXCEPT ![x].pc = "top"]
-               /\ UNCHANGED <<pool, content, arriving, recv, udpCh, udpCount, decCount, stop, closed, sd, published, panicked>>
+               /\ UNCHANGED <<pool, content, arriving, recv, udpCh, udpCount, decCount, stop, closed, sd, published, panicked, quit>>
 (* the producer goroutine takes a message: what it reads is what the slice holds NOW *)
 Consume == /\ mqCh # <<>>
            /\ LET m == Head(mqCh)
                   v == IF m.ref = NoRef THEN m.val ELSE w[m.ref].enc IN
               published' = [published EXCEPT ![m.d] = Append(@, v)]
            /\ mqCh' = Tail(mqCh)
-           /\ UNCHANGED <<pool, content, arriving, recv, udpCh, w, udpCount, decCount, stop, closed, sd, panicked>>
+           /\ UNCHANGED <<pool, content, arriving, recv, udpCh, w, udpCount, decCount, stop, closed, sd, panicked, quit>>
 
 \* ---------------- shutdown
 Signal == /\ sd = "idle" /\ sd' = "setstop"
-          /\ UNCHANGED <<pool, content, arriving, recv, udpCh, w, mqCh, udpCount, decCount, stop, closed, published, panicked>>
+          /\ UNCHANGED <<pool, content, arriving, recv, udpCh, w, mqCh, udpCount, decCount, stop, closed, published, panicked, quit>>
 SdStop == /\ sd = "setstop" /\ stop' = TRUE /\ sd' = "sleep"
-          /\ UNCHANGED <<pool, content, arriving, recv, udpCh, w, mqCh, udpCount, decCount, closed, published, panicked>>
+          /\ UNCHANGED <<pool, content, arriving, recv, udpCh, w, mqCh, udpCount, decCount, closed, published, panicked, quit>>
 \* timing assumption: one second is enough for the loop to leave anything but a blocked send
 SdSleepDone == /\ sd = "sleep" /\ recv.pc \in {"exit", "send"} /\ sd' = "close"
-               /\ UNCHANGED <<pool, content, arriving, recv, udpCh, w, mqCh, udpCount, decCount, stop, closed, published, panicked>>
+               /\ UNCHANGED <<pool, content, arriving, recv, udpCh, w, mqCh, udpCount, decCount, stop, closed, published, panicked, quit>>
 SdClose == /\ sd = "close" /\ (CloseWaits => recv.pc = "exit")
            /\ closed' = TRUE /\ sd' = "done"
-           /\ UNCHANGED <<pool, content, arriving, recv, udpCh, w, mqCh, udpCount, decCount, stop, published, panicked>>
+           /\ UNCHANGED <<pool, content, arriving, recv, udpCh, w, mqCh, udpCount, decCount, stop, published, panicked, quit>>
 
 Next == \/ RecvCheck \/ RecvGet \/ RecvRead \/ RecvTimeout \/ RecvCount \/ RecvSend
-        \/ \E x \in Workers : WTop(x) \/ WDequeue(x) \/ WExit(x) \/ WDecode(x) \/ WMarshal(x) \/ WPublish(x)
+        \/ \E x \in Workers : WTop(x) \/ WDequeue(x) \/ WExit(x) \/ WDecode(x) \/ WMarshal(x) \/ WPublish(x) \/ Retire(x) \/ WQuit(x) \/ WQuitDrop(x)
         \/ Consume \/ Signal \/ SdStop \/ SdSleepDone \/ SdClose
 Spec == Init /\ [][Next]_vars
 
